@@ -515,3 +515,35 @@ func sameOrReturned(v, w ssa.Value) bool {
 	}
 	return true
 }
+
+// loopCarriedCell: al is a local declared outside loop l, written (as a whole, or field / element wise) inside it, and
+// not re-initialised as a whole inside the loop before `at` on every iteration: what it holds at `at` may stem from an
+// earlier iteration.
+func loopCarriedCell(al *ssa.Alloc, l *core.Loop, at ssa.Instruction) bool {
+	if al == nil || l == nil || l.Blocks[al.Block()] || al.Referrers() == nil {
+		return false
+	}
+	written := false
+	for _, r := range *al.Referrers() {
+		switch x := r.(type) {
+		case *ssa.Store:
+			if x.Addr == ssa.Value(al) && l.Blocks[x.Block()] {
+				if core.Dominates(x, at) && !depReaches(x.Val, func(v ssa.Value) bool { return v == ssa.Value(al) }) {
+					return false // re-initialised on every iteration before use
+				}
+				written = true
+			}
+		case *ssa.FieldAddr, *ssa.IndexAddr:
+			rv := x.(ssa.Value)
+			if rv.Referrers() == nil {
+				continue
+			}
+			for _, rr := range *rv.Referrers() {
+				if st, ok := rr.(*ssa.Store); ok && st.Addr == rv && l.Blocks[st.Block()] {
+					written = true
+				}
+			}
+		}
+	}
+	return written
+}
